@@ -60,6 +60,10 @@ func (g *Gen) verifyFunction(fn *ssa.Function, sp *FuncSpec) *FnCtx {
 		}
 		fr.params[p.Name()] = v
 	}
+	if fn.Signature.Recv() != nil && len(fn.Params) > 0 && kindOf(fn.Params[0].Type()) == KRef {
+		fc.define(sNot(sEq(fr.vals[fn.Params[0]].S, "0")))
+		fc.note("method receivers are assumed non-nil")
+	}
 	// free variables of a closure under contract: addressable cells
 	for _, fv := range fn.FreeVars {
 		v := fc.freshVal(fv.Type(), "fv!"+fv.Name())
@@ -72,6 +76,9 @@ func (g *Gen) verifyFunction(fn *ssa.Function, sp *FuncSpec) *FnCtx {
 	env.old = entry
 	var reqs []string
 	for _, c := range sp.Requires {
+		if !fc.modeOK(c) {
+			continue
+		}
 		f := env.bool(c.Expr)
 		reqs = append(reqs, f)
 		fc.assume(f, "precondition "+c.Text)
@@ -119,6 +126,9 @@ func (g *Gen) verifyFunction(fn *ssa.Function, sp *FuncSpec) *FnCtx {
 		}
 		suffix := ""
 		for _, c := range sp.Ensures {
+			if !fc.modeOK(c) {
+				continue
+			}
 			f := renv.bool(c.Expr)
 			o := &Oblig{Name: fmt.Sprintf("%s/ensures#%d%s", sp.Name, c.Ord, suffix), Kind: "ensures", Tags: c.Tags, goal: sImp(r.guard, f), Text: c.Text, Spec: c}
 			fc.addObligAt(o, r.block, r.seq)
